@@ -26,6 +26,9 @@ of the group (one and the same word / different non-finite words / all rows but 
 only), a whole row, everything - x, y or z, over a shared or varying finite z; if such a group is
 accepted, what it stores (point data, CommonZCoordinateValue) and hands back (fresh, written + parsed)
 is recorded for the report.
+Kind 'graphic_counts': the vector of point counts of the annotations of one group is the input (sizes that obey /
+break the rule of the graphic type in one place, in several places, in ways that cancel out in the total); if a
+malformed group is accepted, the partition of the points that each path hands back is reported.
 Model: coq/theories/C18_Model.v; theorems: C18_Props.v.
 
 Floats are carried as their bit patterns ("words"); the case files store words
@@ -67,7 +70,7 @@ MODELLED = ('ann/content.py Measurements.__init__/get_values, AnnotationGroup.__
             'images, transfer syntax), lookup returning the group object, accessor histories and the get_measurements value '
             'matrix (np.vstack(..).T) on that object; from_dataset guards (Dataset type, SOP class, little endian file meta).  '
             'Not modelled (exercised only): SOPClass header attributes, pydicom I/O.')
-STRATA = ['graphic', 'graphic_bigint', 'graphic_err', 'graphic_nonfinite', 'decode_raw', 'meas', 'meas_raw', 'group_meas', 'group_meas_err',
+STRATA = ['graphic', 'graphic_bigint', 'graphic_err', 'graphic_nonfinite', 'graphic_counts', 'decode_raw', 'meas', 'meas_raw', 'group_meas', 'group_meas_err',
           'lookup', 'lookup_err', 'zero_mixed', 'graphic_layout', 'access_order', 'object', 'object_err', 'parse_guard']
 RULE = ('graphic: 1-4 groups per object, all five graphic types, point counts at and around the limits, 2-D / 3-D with '
         'constant / varying / almost-constant z, dtypes float32 float64 int8..int64 uint8..uint32 and mixed, values from '
@@ -78,6 +81,13 @@ RULE = ('graphic: 1-4 groups per object, all five graphic types, point counts at
         'but one, one annotation only, one row, everything) x class (quiet / negative / payload / signalling NaN, +inf, -inf), '
         'over a shared or varying finite z, 1-6 annotations incl. ONE 3-D point with z = NaN, + random with memory layouts and '
         'mixed f4/f8 arrays; all must raise ValueError; '
+        'graphic_counts: the VECTOR of point counts of a group (everything else well-formed): every graphic type x profile '
+        '(valid, one wrong, compensating = wrong sizes whose total is that of a well-formed group / whose mean stays above '
+        'the minimum, all wrong, two outlines merged, one outline split over two arrays, only first / only last right, '
+        'multiples of the required size, an empty array, random) x 2-D / 3-D x f4 / f8 / integer, + the smallest '
+        'compensating vectors ([3,5], [2,4,6], [4,5,4,3], [2,0], [1,0,2,1], [1,3], [2,4], ..); ValueError iff some array '
+        'breaks the rule, judged from the array shapes; group_meas_err also has two vectors of n-j and n+j values; '
+        'object_err has rows moved between two annotations of one group; '
         'decode_raw: stored attributes mutated (truncated data, missing/short index list, swapped graphic type, wrong '
         'coordinate type); meas: every NaN mask up to length 4 + random, infinities, payload NaNs, several requested '
         'counts; meas_raw: malformed stored indices; group_meas(_err): named vectors, name filters, wrong lengths dense and '
@@ -203,7 +213,11 @@ def _same_val(a, b, dt):
     return a == b or (_is_zero_val(a, dt) and _is_zero_val(b, dt))
 
 
-def gen_group(rng, d, gt=None, dt=None, nann=None, zmode=None, big=False, bigint=False):
+def gen_group(rng, d, gt=None, dt=None, nann=None, zmode=None, big=False, bigint=False, counts=None):
+    """counts: the number of points of each annotation is GIVEN (possibly against the rule of the graphic type,
+    possibly 0); everything else about the group stays well-formed"""
+    if counts is not None:
+        nann = len(counts)
     gt = gt or rng.choice(GT)
     dt = dt or rng.choice(['f4', 'f4', 'f8', 'f8', rng.choice(INT_DT)])
     nann = nann or rng.choice([1, 1, 2, 3, rng.randint(1, 6), rng.randint(1, 12 if big else 6)])
@@ -211,9 +225,9 @@ def gen_group(rng, d, gt=None, dt=None, nann=None, zmode=None, big=False, bigint
     z0 = rand_val(rng, dt, zero_ok=False, bigint=bigint)
     gd = []
     for i in range(nann):
-        n = npoints(rng, gt, big)
+        n = npoints(rng, gt, big) if counts is None else counts[i]
         a = [[rand_val(rng, dt, bigint=bigint) for _ in range(d)] for _ in range(n)]
-        if gt == 'POLYGON' and all(_same_val(x, y, dt) for x, y in zip(a[0], a[-1])):
+        if gt == 'POLYGON' and len(a) >= 2 and all(_same_val(x, y, dt) for x, y in zip(a[0], a[-1])):
             a[-1][0] = f2w(12345.0, dt) if dt in ('f4', 'f8') else (a[0][0] + 1 if a[0][0] < 100 else a[0][0] - 1)
             if _same_val(a[-1][0], a[0][0], dt):
                 a[-1][0] = f2w(54321.0, dt) if dt in ('f4', 'f8') else 7
@@ -235,7 +249,7 @@ def gen_group(rng, d, gt=None, dt=None, nann=None, zmode=None, big=False, bigint
                     r[2] = z0
         # polygon rule may have been re-violated by forcing z
         for a in gd:
-            if gt == 'POLYGON' and all(_same_val(x, y, dt) for x, y in zip(a[0], a[-1])):
+            if gt == 'POLYGON' and len(a) >= 2 and all(_same_val(x, y, dt) for x, y in zip(a[0], a[-1])):
                 a[-1][1] = f2w(777.0, dt) if dt in ('f4', 'f8') else (5 if a[0][1] != 5 else 6)
     return {'gt': gt, 'dt': dt, 'gd': gd}
 
@@ -377,6 +391,111 @@ def gen_graphic_err(rng):
             gd.append([list(r) for r in gd[0]])
         gd[i] = [r[:d - 1] for r in gd[i]] if d == 3 else [r + [r[0]] for r in gd[i]]
     return {'kind': 'graphic_err', 'mode': mode, 'd': d, 'groups': [g], 'implicit': False}
+
+
+# ---- point counts per annotation: the VECTOR of sizes of a group (everything else well-formed)
+COUNT_RULE = {'POINT': (1, 1), 'POLYLINE': (2, None), 'POLYGON': (3, None), 'ELLIPSE': (4, 4), 'RECTANGLE': (4, 4)}
+COUNT_PROFILES = ['valid', 'one_wrong', 'compensating', 'compensating_long', 'all_wrong', 'merged', 'split', 'first_ok',
+                  'last_ok', 'multiple', 'empty_one', 'random']
+# smallest vectors whose sizes add up to (fixed types) / stay above (open-ended types) those of a well-formed group
+COUNT_FIXTURES = {
+    'ELLIPSE': [[3, 5], [5, 3], [2, 4, 6], [4, 5, 4, 3], [4, 1, 7, 4], [0, 8], [1, 4, 7]],
+    'RECTANGLE': [[3, 5], [5, 3], [6, 4, 2], [3, 4, 5, 4], [4, 7, 1, 4], [8, 0], [7, 4, 1]],
+    'POINT': [[2, 0], [0, 2], [1, 0, 2, 1], [0, 1, 2], [3, 0, 0], [2, 1, 0, 1]],
+    'POLYLINE': [[1, 3], [3, 1], [2, 1, 3], [0, 4], [5, 2, 1]],
+    'POLYGON': [[2, 4], [4, 2], [3, 2, 4], [1, 5], [0, 6], [7, 3, 2]],
+}
+
+
+def count_vector(rng, gt, profile, n=None):
+    """sizes of the annotations of one group under a profile; 'valid' obeys the rule, every other one breaks it"""
+    k, hi = COUNT_RULE[gt]
+    fixed = hi is not None
+    n = n or rng.choice([2, 2, 3, 4, rng.randint(2, 6)])
+
+    def ok():
+        return k if fixed else rng.choice([k, k, k + 1, k + 2, rng.randint(k, 8)])
+
+    def wrong():
+        return rng.choice([v for v in range(0, k + 5) if v != k]) if fixed else rng.randint(0, k - 1)
+    cs = [ok() for _ in range(n)]
+    if profile == 'valid':
+        return cs
+    if profile == 'one_wrong':
+        cs[rng.randrange(n)] = wrong()
+    elif profile in ('compensating', 'compensating_long'):
+        if profile == 'compensating_long':
+            n = max(n, 3)
+            cs = [ok() for _ in range(n)]
+        i, j = rng.sample(range(n), 2)
+        if fixed:
+            # points move from one annotation to another: the total stays k * n
+            for _ in range(1 if profile == 'compensating' else rng.choice([1, 2])):
+                delta = rng.randint(1, k)
+                cs[i] -= delta
+                cs[j] += delta
+                if profile == 'compensating_long':
+                    j = rng.choice([x for x in range(n) if x != i])
+            if profile == 'compensating_long' and rng.random() < 0.5:
+                # three wrong sizes, e.g. k-1, k-1, k+2
+                a, b, c = rng.sample(range(n), 3)
+                cs = [k] * n
+                cs[a], cs[b], cs[c] = k - 1, k - 1 if k > 1 else 0, k + 2 if k > 1 else 3
+                if k == 1:
+                    cs[a] = 0
+        else:
+            # one annotation below the minimum, another long enough for the mean to stay above it
+            short = rng.randint(0, k - 1)
+            cs[i] = short
+            cs[j] = max(cs[j], k + (k - short) + rng.choice([0, 0, 1, 3]))
+    elif profile == 'all_wrong':
+        w = rng.choice([k + 1, 2 * k, k + 3] + ([k - 1] if k > 1 else [])) if fixed else k - 1
+        cs = [w] * n
+    elif profile == 'merged':
+        # two outlines in one array (open-ended types: one outline cut into a stub and the rest)
+        if fixed:
+            cs[rng.randrange(n)] = 2 * k
+        else:
+            cs[rng.randrange(n)] = 1
+    elif profile == 'split':
+        # one outline spread over two arrays
+        i = rng.randrange(n)
+        j = rng.randint(1, k - 1) if k > 1 else 0
+        cs[i:i + 1] = [j, (cs[i] if fixed else k) - j]
+    elif profile == 'first_ok':
+        cs = [ok()] + [wrong() for _ in range(n - 1)]
+    elif profile == 'last_ok':
+        cs = [wrong() for _ in range(n - 1)] + [ok()]
+    elif profile == 'multiple':
+        # every size a multiple of the required one / the total divisible by it
+        if fixed:
+            cs = [k * rng.choice([1, 2, 3]) for _ in range(n)]
+            cs[rng.randrange(n)] = k * rng.choice([2, 3])
+        else:
+            cs = [k * 2] * n
+            cs[rng.randrange(n)] = k - 1
+    elif profile == 'empty_one':
+        cs[rng.randrange(n)] = 0
+    elif profile == 'random':
+        cs = [rng.randint(0, k + 3) for _ in range(n)]
+        cs[rng.randrange(n)] = wrong()
+    else:
+        raise ValueError(profile)
+    return cs
+
+
+def gen_graphic_counts(rng, gt=None, profile=None, counts=None, d=None, dt=None, zmode=None, plain=False):
+    """one group whose annotations have the given sizes; whether that obeys the rule is for the oracle to say"""
+    gt = gt or rng.choice(GT)
+    d = d or rng.choice([2, 3])
+    profile = profile or rng.choice(COUNT_PROFILES)
+    if counts is None:
+        counts = count_vector(rng, gt, profile)
+    g = gen_group(rng, d, gt=gt, dt=dt or rng.choice(['f4', 'f8', 'f4', 'f8', 'i4', 'u2', 'i8']),
+                  zmode=zmode or rng.choice(['const', 'vary']), counts=counts)
+    if not plain and rng.random() < 0.2:
+        g['layout'] = rng.choice(LAYOUTS[1:])
+    return {'kind': 'graphic_counts', 'profile': profile, 'd': d, 'groups': [g], 'implicit': False}
 
 
 # ---- non-finite coordinates: WHERE they sit (cell / column / row / all) and of which class
@@ -551,8 +670,21 @@ def gen_group_meas(rng, bad=False):
     mode = 'ok'
     if bad:
         m = ms[rng.randrange(k)]
-        mode = rng.choice(['dense_short', 'dense_long', 'sparse_short', 'sparse_long', 'sparse_long_nan', 'one', 'allnan'])
+        mode = rng.choice(['dense_short', 'dense_long', 'sparse_short', 'sparse_long', 'sparse_long_nan', 'one', 'allnan',
+                           'comp_dense', 'comp_sparse'])
         fin = f2w(2.5, 'f4')
+        if mode in ('comp_dense', 'comp_sparse'):
+            # two vectors of wrong lengths that add up to those of two good ones (n - j and n + j values)
+            if len(ms) < 2:
+                ms.append({'name': rng.randrange(3), 'vs': [], 'dt': rng.choice(['f4', 'f8']), 'layout': 'c'})
+            m1, m2 = rng.sample(ms, 2)
+            j = rng.randint(1, n)
+            m1['vs'] = [fin] * (n - j)
+            m2['vs'] = [fin] * (n + j)
+            if mode == 'comp_sparse':
+                m2['vs'][rng.randrange(n + j)] = 0x7fc00000
+                if n - j > 1:
+                    m1['vs'][rng.randrange(n - j)] = 0x7fc00000
         if mode == 'dense_short':
             m['vs'] = [fin] * (n - 1)
         elif mode == 'dense_long':
@@ -615,7 +747,8 @@ def gen_lookup(rng, bad=False):
 OBJ_ERR_MODES = ['number_zero', 'number_neg', 'algtype_bad', 'alg_missing', 'numbering_swap', 'numbering_gap', 'meas_len',
                  'graphic_count', 'graphic_nonfinite', 'hdr_nosrc', 'hdr_2src_2d', 'hdr_for', 'hdr_ts', 'hdr_ctype',
                  'alg_missing+hdr_ts', 'alg_missing+numbering_gap', 'alg_missing+graphic_count', 'number_zero+alg_missing',
-                 'graphic_nonfinite_col', 'alg_missing+graphic_nonfinite_col']
+                 'graphic_nonfinite_col', 'alg_missing+graphic_nonfinite_col', 'graphic_count_comp',
+                 'alg_missing+graphic_count_comp']
 
 
 def gen_object(rng, tier, mode=None):
@@ -662,6 +795,19 @@ def gen_object(rng, tier, mode=None):
                 g['ms'] = g['ms'] + [{'name': 0, 'vs': vs, 'dt': 'f4'}]
             elif m == 'graphic_count':
                 g['gd'][0] = g['gd'][0] + [list(g['gd'][0][0])] if g['gt'] in ('POINT', 'ELLIPSE', 'RECTANGLE') else g['gd'][0][:1]
+            elif m == 'graphic_count_comp':
+                # rows move from one annotation to its neighbour: sizes against the rule, total as in a good group
+                if len(g['gd']) < 2:
+                    g['gd'].append([list(r) for r in g['gd'][0]])
+                    for mm in g['ms']:
+                        mm['vs'] = mm['vs'] + [f2w(1.5, 'f4')]
+                    if g['gt'] == 'POLYGON':
+                        g['gd'][1][-1][0] = g['gd'][1][-1][0] + 1 if g['dt'] in ('i2', 'i4') else f2w(4321.0, g['dt'])
+                i, j = rng.sample(range(len(g['gd'])), 2)
+                lo = COUNT_RULE[g['gt']][0]
+                keep = rng.randint(0, lo - 1)
+                g['gd'][j] = g['gd'][j] + g['gd'][i][keep:]
+                g['gd'][i] = g['gd'][i][:keep]
             elif m == 'graphic_nonfinite':
                 g['dt'] = 'f4'
                 g['gd'] = [[[f2w(float(1 + i + j), 'f4') for j in range(d)] for i in range(len(a))] for a in g['gd']]
@@ -760,6 +906,26 @@ def gen_cases(rng, tier):
                                            plain=True))
     for _ in range(24 * n):
         cases.append(gen_graphic_nonfinite(rng))
+    # point counts per annotation: every profile x every graphic type (dimension / dtype / z mode cycled), the
+    # smallest vectors whose total is that of a well-formed group in 2-D and 3-D, then random ones
+    cyc = [(2, 'f4', 'vary'), (3, 'f8', 'const'), (3, 'i4', 'vary'), (2, 'f8', 'vary'), (3, 'f4', 'const'), (2, 'u2', 'vary'),
+           (3, 'f8', 'vary')]
+    k = 0
+    for gt in GT:
+        for profile in COUNT_PROFILES:
+            d, dt, zm = cyc[k % len(cyc)]
+            k += 1
+            cases.append(gen_graphic_counts(rng, gt=gt, profile=profile, d=d, dt=dt, zmode=zm, plain=True))
+        for counts in COUNT_FIXTURES[gt]:
+            d, dt, zm = cyc[k % len(cyc)]
+            k += 1
+            cases.append(gen_graphic_counts(rng, gt=gt, profile='compensating', counts=counts, d=d, dt=dt, zmode=zm,
+                                            plain=True))
+        for d in (2, 3):
+            cases.append(gen_graphic_counts(rng, gt=gt, profile='compensating', d=d, dt=('f4', 'f8')[k % 2], plain=True))
+            k += 1
+    for _ in range(24 * n):
+        cases.append(gen_graphic_counts(rng))
     for _ in range(12 * n):
         cases.append(gen_zero_mixed(rng))
     for _ in range(30 * n):
@@ -1065,6 +1231,20 @@ def _run_graphic_nonfinite(c):
             catch(lambda: [_words(np.asarray(x, dtype=(np.float64 if np.asarray(x).dtype == np.float64 else np.float32)))
                            for x in grp.get_graphic_data(ct)]),
             catch(written)]
+
+
+def _run_graphic_counts(c):
+    """build the group; refused: the exception class.  Accepted: everything a 'graphic' case observes (fresh object,
+    cold copy, written + parsed), so that well-formed vectors are compared like any other group and a malformed one
+    that got through shows what it stores and which partition of the points each path hands back"""
+    d, g = c['d'], c['groups'][0]
+    grp = catch(lambda: _group(1, g['gt'], _arrays(g, d)))
+    if isinstance(grp, Err):
+        return grp
+    try:
+        return _run_graphic(c)
+    except Exception as e:  # noqa: BLE001  (only reachable for input that should not have been accepted)
+        return ['accepted', int(grp.NumberOfAnnotations), Err(type(e).__name__)]
 
 
 def _enter(ann, entry, gt):
@@ -1469,6 +1649,8 @@ def run_impl(c):
         return _run_graphic(c)
     if k == 'graphic_nonfinite':
         return _run_graphic_nonfinite(c)
+    if k == 'graphic_counts':
+        return _run_graphic_counts(c)
     if k == 'access_order':
         return _run_access_order(c)
     if k == 'decode_raw':
@@ -1609,6 +1791,11 @@ def coq_term(c):
         return f"({lets} VL [{path('m{i}')}; {path('sel [1; 2]%nat g{i}')}; {path('g{i}')}; VB true])"
     if k == 'graphic_nonfinite':
         return _graphic_term(c['groups'][0], c['d'])
+    if k == 'graphic_counts':
+        g, d = c['groups'][0], c['d']
+        return (f"(let g0 := {_graphic_term(g, d)} in let m0 := {_graphic_term(g, d, mem=True)} in "
+                f"match g0 with VErr e => VErr e "
+                f"| _ => VL [VL [m0]; VL [sel [1; 2]%nat g0]; VL [g0]; VB true] end)")
     if k == 'graphic_err':
         if any(len(set(len(r) for r in a)) > 1 for g in c['groups'] for a in g['gd']):
             return None
@@ -1869,6 +2056,42 @@ def _oracle_nonfinite(c, out):
     return f'{what}: ACCEPTED{stored}; fresh object returns {str(out[2])[:160]}; written + parsed returns {str(back)[:160]}'
 
 
+def _oracle_counts(c, out):
+    """independent of the generator's labels: the shapes of the caller's arrays say which annotations break the rule
+    of the graphic type; every other aspect of the case is well-formed, so: any broken -> ValueError, none -> the
+    group must be accepted and come back unchanged (judged like a 'graphic' case)"""
+    d, g = c['d'], c['groups'][0]
+    arrs = _arrays(g, d, layout=False)
+    counts = [int(a.shape[0]) for a in arrs]
+    lo, hi = {'POINT': (1, 1), 'ELLIPSE': (4, 4), 'RECTANGLE': (4, 4), 'POLYLINE': (2, None), 'POLYGON': (3, None)}[g['gt']]
+    bad = [(i + 1, n) for i, n in enumerate(counts) if n < lo or (hi is not None and n > hi)]
+    if not bad:
+        if isinstance(out, list) and out and out[0] == 'accepted':
+            return f'well-formed {g["gt"]} group with point counts {counts} accepted but unreadable: {out[2]}'
+        return _oracle_graphic(c, out)
+    if out == Err('ValueError'):
+        return None
+    need = f'exactly {lo}' if hi is not None else f'at least {lo}'
+    what = (f'{d}-D {g["gt"]} group ({g["dt"]}) with point counts {counts} (total {sum(counts)} in {len(counts)} annotations; '
+            f'each needs {need}): annotation {bad[0][0]} has {bad[0][1]} [{c.get("profile")}]')
+    if isinstance(out, Err):
+        return f'{what}: rejected with {out} instead of ValueError'
+
+    def sizes(gd):
+        return gd if isinstance(gd, Err) else [len(a) if not a or isinstance(a[0], list) else len(a) // d for a in gd]
+    try:
+        if out[0] == 'accepted':
+            return f'{what}: ACCEPTED (NumberOfAnnotations {out[1]}), then reading it raised {out[2]}'
+        fresh, cold, parsed = out[0][0][0], out[1][0][0], out[2][0][1]
+        enc = out[2][0][0]
+        moved = '' if isinstance(parsed, Err) or sizes(parsed) == counts else ' - points moved between annotations'
+        return (f'{what}: ACCEPTED; stored NumberOfAnnotations {enc[1]}, {len(enc[2])} point data words, index list '
+                f'{enc[4]}; fresh object returns point counts {sizes(fresh)}, from_dataset copy {sizes(cold)}, '
+                f'written + parsed {sizes(parsed)}{moved}')
+    except Exception:  # noqa: BLE001
+        return f'{what}: ACCEPTED: {str(out)[:200]}'
+
+
 def _canon_meas(vs):
     return [0x7fc00000 if (v & 0x7f800000) == 0x7f800000 and (v & 0x7fffff) else v for v in vs]
 
@@ -1899,6 +2122,8 @@ def oracle(c, out):
         return None if out == Err('ValueError') else f'malformed graphic data ({c["mode"]}) not rejected with ValueError: {str(out)[:200]}'
     if k == 'graphic_nonfinite':
         return _oracle_nonfinite(c, out)
+    if k == 'graphic_counts':
+        return _oracle_counts(c, out)
     if k == 'decode_raw':
         if c['mut'] == 'none':
             _, gd = _model_words(c['group'], c['d'])
@@ -1970,6 +2195,8 @@ def nontrivial(c, out):
         return sum(len(g['gd']) for g in c['groups']) > 1
     if k == 'access_order':
         return len(c['group']['gd']) > 1 and len(c['ops']) > 1
+    if k == 'graphic_counts':
+        return len(c['groups'][0]['gd']) > 1
     if k == 'meas':
         return len(c['vs']) > 1
     if k == 'group_meas':
@@ -2002,7 +2229,15 @@ def shrink(c):
         for i, a in enumerate(g['gd']):
             if g['gt'] in ('POLYLINE', 'POLYGON') and len(a) > 3:
                 yield dict(c, group=dict(g, gd=g['gd'][:i] + [a[:1] + a[2:]] + g['gd'][i + 1:]))
-    if k in ('graphic', 'graphic_bigint', 'graphic_err', 'zero_mixed', 'graphic_layout', 'graphic_nonfinite'):
+    if k == 'graphic_counts':
+        # fewer annotations first (generic part below), then fewer points: one row less here, or one row moved to the
+        # neighbour (keeps the total)
+        g = c['groups'][0]
+        gd = g['gd']
+        for i, a in enumerate(gd):
+            if len(a) > 0:
+                yield dict(c, groups=[dict(g, gd=gd[:i] + [a[:-1]] + gd[i + 1:])])
+    if k in ('graphic', 'graphic_bigint', 'graphic_err', 'zero_mixed', 'graphic_layout', 'graphic_nonfinite', 'graphic_counts'):
         gs = c['groups']
         if len(gs) > 1:
             for i in range(len(gs)):
